@@ -1,8 +1,10 @@
 // factgen plugin: regenerates lean/Galaxy/Generated/Plugin.lean from the CURRENT source of the galaxy-ipam scheduler
 // plugin: the constants the model M4-core uses (key prefixes, sentinel app name, policy enum, retry limit) and the
 // structural facts its shape and the C01/C04 proofs rely on (UID guards present before any mutation, re-read under
-// the pod lock, lister-then-apiserver in podRunning, lockPod at the six entry points).  Purely syntactic (go/ast on
-// single functions); it fails loudly when a function it looks at is gone.
+// the pod lock, lister-then-apiserver in podRunning, lockPod at the six entry points).  The facts are matched on the
+// NORMALISED trace of each function (normalise.go): names of locals, hoisted sub-expressions, named booleans, nested
+// ifs versus && versus guard clauses, switch versus if-chains, log lines, error texts and one level of private helpers
+// make no difference; a dropped, moved or weakened guard does.  It fails loudly when a function it looks at is gone.
 package main
 
 import (
@@ -16,167 +18,6 @@ import (
 )
 
 const dir = "pkg/ipam/schedulerplugin/"
-
-// firstIdx: index of the first top-level statement of body whose text contains any of subs (or -1).
-func firstIdx(p *fg.Parsed, body *ast.BlockStmt, subs ...string) int {
-	best := -1
-	for _, s := range subs {
-		if i := p.StmtIndex(body, s); i >= 0 && (best < 0 || i < best) {
-			best = i
-		}
-	}
-	return best
-}
-
-// guardIdx: index of the first top-level statement that contains an `if` whose condition mentions all of conds and
-// whose body returns; wantNilReturn selects `return nil` (ignore) versus an error return.
-func guardIdx(p *fg.Parsed, body *ast.BlockStmt, conds []string, returnsContain string) int {
-	for i, s := range body.List {
-		found := false
-		ast.Inspect(s, func(n ast.Node) bool {
-			ifs, ok := n.(*ast.IfStmt)
-			if !ok || found {
-				return !found
-			}
-			c := p.Src(ifs.Cond)
-			for _, want := range conds {
-				if !strings.Contains(c, want) {
-					return true
-				}
-			}
-			for _, bs := range ifs.Body.List {
-				if r, ok := bs.(*ast.ReturnStmt); ok && strings.Contains(p.Src(r), returnsContain) {
-					found = true
-				}
-			}
-			return !found
-		})
-		if found {
-			return i
-		}
-	}
-	return -1
-}
-
-// wholeKeyGuardIdx: index of the top-level `for _, x := range V` statement that contains the UID guard, where V was
-// assigned from `ByKeyAndIPRanges(key, nil)` (all records of the key) by an earlier top-level statement; -1 otherwise.
-func wholeKeyGuardIdx(p *fg.Parsed, body *ast.BlockStmt, conds []string, returnsContain string) int {
-	all := map[string]bool{}
-	for i, s := range body.List {
-		if as, ok := s.(*ast.AssignStmt); ok && len(as.Rhs) == 1 && len(as.Lhs) >= 1 &&
-			strings.Contains(p.Src(as.Rhs[0]), "ByKeyAndIPRanges(key, nil)") {
-			if id, ok := as.Lhs[0].(*ast.Ident); ok {
-				all[id.Name] = true
-			}
-		}
-		rs, ok := s.(*ast.RangeStmt)
-		if !ok || !all[p.Src(rs.X)] {
-			continue
-		}
-		if guardIdx(p, &ast.BlockStmt{List: []ast.Stmt{rs}}, conds, returnsContain) == 0 {
-			return i
-		}
-	}
-	return -1
-}
-
-func hasDeferLockPod(p *fg.Parsed, body *ast.BlockStmt) int {
-	for i, s := range body.List {
-		if d, ok := s.(*ast.DeferStmt); ok && strings.Contains(p.Src(d), "p.lockPod(") {
-			return i
-		}
-	}
-	return -1
-}
-
-// before: a >= 0 and (b < 0 or a < b)
-// skipsNonPodKeys: the (first) range loop of the body parses the record's key and `continue`s on an empty pod name
-// before it appends the record to the checklist.
-func skipsNonPodKeys(p *fg.Parsed, body *ast.BlockStmt) bool {
-	res := false
-	done := false
-	ast.Inspect(body, func(n ast.Node) bool {
-		fr, ok := n.(*ast.RangeStmt)
-		if !ok || done {
-			return !done
-		}
-		done = true
-		skipAt, appendAt, parseAt := -1, -1, -1
-		for i, st := range fr.Body.List {
-			if ifs, ok := st.(*ast.IfStmt); ok && skipAt < 0 && p.Src(ifs.Cond) == `keyObj.PodName == ""` && len(ifs.Body.List) == 1 && ifs.Else == nil {
-				if br, ok := ifs.Body.List[0].(*ast.BranchStmt); ok && br.Tok.String() == "continue" {
-					skipAt = i
-				}
-			}
-			if parseAt < 0 && strings.Contains(p.Src(st), "keyObj := util.ParseKey(fip.Key)") {
-				parseAt = i
-			}
-			if appendAt < 0 && strings.Contains(p.Src(st), "meta.allocatedIPs = append(") {
-				appendAt = i
-			}
-		}
-		res = parseAt >= 0 && skipAt > parseAt && appendAt > skipAt
-		return false
-	})
-	return res
-}
-
-// enqueuesOnlyOnNotFound: the body sends to p.unreleased at least once, every such send is (directly) inside the body
-// of an `if` whose condition is exactly `apierrors.IsNotFound(err1)`, and err1 is assigned exactly once, from the error
-// of the pods/binding call (`if err := …Pods(…).Bind(…); err != nil { err1 = err … }`).
-func enqueuesOnlyOnNotFound(p *fg.Parsed, body *ast.BlockStmt) bool {
-	sends, guarded := 0, 0
-	ast.Inspect(body, func(n ast.Node) bool {
-		if _, ok := n.(*ast.SendStmt); ok && strings.HasPrefix(p.Src(n), "p.unreleased <-") {
-			sends++
-		}
-		if ifs, ok := n.(*ast.IfStmt); ok && p.Src(ifs.Cond) == "apierrors.IsNotFound(err1)" && ifs.Else == nil {
-			for _, st := range ifs.Body.List {
-				if _, ok := st.(*ast.SendStmt); ok && strings.HasPrefix(p.Src(st), "p.unreleased <-") {
-					guarded++
-				}
-			}
-		}
-		return true
-	})
-	assigns, fromBinding := 0, 0
-	ast.Inspect(body, func(n ast.Node) bool {
-		if as, ok := n.(*ast.AssignStmt); ok && len(as.Lhs) == 1 && p.Src(as.Lhs[0]) == "err1" {
-			assigns++
-		}
-		if ifs, ok := n.(*ast.IfStmt); ok && ifs.Init != nil && strings.Contains(p.Src(ifs.Init), ".Bind(context.TODO(), &corev1.Binding{") &&
-			strings.HasPrefix(p.Src(ifs.Init), "err := p.Client.CoreV1().Pods(") && p.Src(ifs.Cond) == "err != nil" {
-			for _, st := range ifs.Body.List {
-				if p.Src(st) == "err1 = err" {
-					fromBinding++
-				}
-			}
-		}
-		return true
-	})
-	return sends >= 1 && sends == guarded && assigns == 1 && fromBinding == 1
-}
-
-// finishedIsPhaseOnly: the body is the single statement `return A || B` with A, B the comparisons of pod.Status.Phase
-// with corev1.PodFailed and corev1.PodSucceeded (either order).
-func finishedIsPhaseOnly(p *fg.Parsed, body *ast.BlockStmt) bool {
-	if len(body.List) != 1 {
-		return false
-	}
-	r, ok := body.List[0].(*ast.ReturnStmt)
-	if !ok || len(r.Results) != 1 {
-		return false
-	}
-	be, ok := r.Results[0].(*ast.BinaryExpr)
-	if !ok || be.Op.String() != "||" {
-		return false
-	}
-	x, y := p.Src(be.X), p.Src(be.Y)
-	f, s := "pod.Status.Phase == corev1.PodFailed", "pod.Status.Phase == corev1.PodSucceeded"
-	return (x == f && y == s) || (x == s && y == f)
-}
-
-func before(a, b int) bool { return a >= 0 && (b < 0 || a < b) }
 
 func gen(repo string) (map[string]string, error) {
 	var b strings.Builder
@@ -252,309 +93,43 @@ func gen(repo string) (map[string]string, error) {
 	}
 	fmt.Fprintf(&b, "def unbindMaxRetries : Nat := %d\n\n", limit)
 
-	// ---- bind.go
+	// ---- the traces
 	bd, err := fg.ParseFile(repo, dir+"bind.go")
 	if err != nil {
 		return nil, err
 	}
-	unbind, err := bd.Fn("FloatingIPPlugin", "unbind")
-	if err != nil {
-		return nil, err
-	}
-	g := guardIdx(bd, unbind.Body, []string{"PodUid != \"\"", "GetUID()) != \"\"", "ipInfo.PodUid != string(pod.GetUID())"}, "return nil")
-	mut := firstIdx(bd, unbind.Body, "cloudProviderUnAssignIP(", "unbindDpPod(", "unbindNoneDpPod(", "releaseIP(", "reserveIP(")
-	fmt.Fprintf(&b, "/-- unbind: an event whose pod UID differs from a stored non-empty UID is ignored before any provider/IPAM mutation -/\ndef unbindChecksUID : Bool := %s\n", fg.LeanBool(before(g, mut) && mut >= 0))
-
-	alloc, err := bd.Fn("FloatingIPPlugin", "allocateIP")
-	if err != nil {
-		return nil, err
-	}
-	g = guardIdx(bd, alloc.Body, []string{"ipInfo != nil", "ipInfo.PodUid != \"\"", "ipInfo.PodUid != string(pod.GetUID())"}, "return nil, fmt.Errorf")
-	mut = firstIdx(bd, alloc.Body, "AllocateInSubnetsAndIPRange(", "cloudProviderAssignIP(", "UpdateAttr(")
-	fmt.Fprintf(&b, "/-- allocateIP: refuses to reuse an IP stored under another non-empty UID before allocating / assigning / updating -/\ndef bindChecksUID : Bool := %s\n", fg.LeanBool(before(g, mut) && mut >= 0))
-
-	wk := wholeKeyGuardIdx(bd, alloc.Body, []string{"ipInfo != nil", "ipInfo.PodUid != \"\"", "ipInfo.PodUid != string(pod.GetUID())"}, "return nil, fmt.Errorf")
-	fmt.Fprintf(&b, "/-- allocateIP: that check ranges over ALL records of the key (ByKeyAndIPRanges(key, nil)), not only the requested ranges -/\ndef bindUidGuardCoversWholeKey : Bool := %s\n", fg.LeanBool(before(wk, mut) && mut >= 0))
-
-	rel, err := bd.Fn("FloatingIPPlugin", "Release")
-	if err != nil {
-		return nil, err
-	}
-	lk := hasDeferLockPod(bd, rel.Body)
-	rd := firstIdx(bd, rel.Body, "p.ipam.ByIP(r.IP)")
-	cmp := guardIdx(bd, rel.Body, []string{"fip.Key != k.KeyInDB"}, "return")
-	run := firstIdx(bd, rel.Body, "p.podRunning(")
-	// the answer is used: `if running { return <error> }` right after the question, before any mutation
-	refuse := guardIdx(bd, rel.Body, []string{"running"}, "return fmt.Errorf")
-	mut = firstIdx(bd, rel.Body, "cloudProviderUnAssignIP(", "p.reserveIP(", "p.ipam.Release(")
-	fmt.Fprintf(&b, "/-- Release: lockPod, re-read ByIP, compare keys, ask podRunning and refuse when running - all before the first mutation -/\ndef releaseRechecksUnderLock : Bool := %s\n",
-		fg.LeanBool(lk >= 0 && before(lk, rd) && before(rd, cmp) && before(cmp, run) && before(run, refuse) && before(refuse, mut) && mut >= 0))
-
-	// ---- resync.go
 	rs, err := fg.ParseFile(repo, dir+"resync.go")
 	if err != nil {
 		return nil, err
 	}
-	rai, err := rs.Fn("FloatingIPPlugin", "resyncAllocatedIPs")
-	if err != nil {
-		return nil, err
-	}
-	var closure *ast.FuncLit
-	ast.Inspect(rai, func(n ast.Node) bool {
-		if fl, ok := n.(*ast.FuncLit); ok && closure == nil {
-			closure = fl
-		}
-		return closure == nil
-	})
-	resyncOK := false
-	resyncLock := false
-	if closure != nil {
-		lk = hasDeferLockPod(rs, closure.Body)
-		rd = firstIdx(rs, closure.Body, "p.ipam.ByIP(obj.fip.IP)")
-		cmp = guardIdx(rs, closure.Body, []string{"fip.Key != obj.fip.Key"}, "return")
-		run = firstIdx(rs, closure.Body, "p.podRunning(")
-		skip := guardIdx(rs, closure.Body, []string{"running"}, "return")
-		mut = firstIdx(rs, closure.Body, "cloudProviderUnAssignIP(", "p.reserveIP(", "unbindNoneDpPod(", "unbindDpPod(")
-		resyncLock = lk == 0
-		resyncOK = lk >= 0 && before(lk, rd) && before(rd, cmp) && before(cmp, run) && before(run, skip) && before(skip, mut) && mut >= 0 &&
-			strings.Contains(rs.Src(closure.Body), "obj.fip = fip") &&
-			strings.Contains(rs.Src(closure.Body), "p.podRunning(obj.keyObj.PodName, obj.keyObj.Namespace, obj.fip.PodUid)")
-	}
-	fmt.Fprintf(&b, "/-- resync closure: lockPod, re-read ByIP, compare keys, podRunning with the re-read UID - before the first mutation -/\ndef resyncRechecksUnderLock : Bool := %s\n", fg.LeanBool(resyncOK))
-
-	// whole-key check of resync and Release (keyOwnedByRunningPod)
-	wkOK := false
-	if ko, err := rs.Fn("FloatingIPPlugin", "keyOwnedByRunningPod"); err == nil && closure != nil {
-		src := rs.Src(ko.Body)
-		helper := strings.Contains(src, "ByKeyAndIPRanges(keyObj.KeyInDB, nil)") &&
-			strings.Contains(src, "ipInfo.PodUid == podUid") &&
-			strings.Contains(src, "p.podRunning(keyObj.PodName, keyObj.Namespace, ipInfo.PodUid)") &&
-			guardIdx(rs, ko.Body, []string{"err != nil"}, "return true") >= 0 &&
-			strings.HasPrefix(rs.Src(ko.Body.List[len(ko.Body.List)-1]), "return false")
-		cRun := guardIdx(rs, closure.Body, []string{"running"}, "return")
-		cKey := guardIdx(rs, closure.Body, []string{"p.keyOwnedByRunningPod(obj.keyObj, obj.fip.PodUid)"}, "return")
-		cMut := firstIdx(rs, closure.Body, "cloudProviderUnAssignIP(", "p.reserveIP(", "unbindNoneDpPod(", "unbindDpPod(")
-		rRun := guardIdx(bd, rel.Body, []string{"running"}, "return fmt.Errorf")
-		rKey := guardIdx(bd, rel.Body, []string{"p.keyOwnedByRunningPod(k, fip.PodUid)"}, "return fmt.Errorf")
-		rMut := firstIdx(bd, rel.Body, "cloudProviderUnAssignIP(", "p.reserveIP(", "p.ipam.Release(")
-		wkOK = helper && before(cRun, cKey) && before(cKey, cMut) && cMut >= 0 && before(rRun, rKey) && before(rKey, rMut) && rMut >= 0
-	}
-	fmt.Fprintf(&b, "/-- resync closure and Release: after \"not running\" and before any mutation they leave the key alone while another record of it (other stored uid) belongs to a running pod -/\ndef resyncAndReleaseCheckWholeKey : Bool := %s\n", fg.LeanBool(wkOK))
-
-	pr, err := rs.Fn("FloatingIPPlugin", "podRunning")
-	if err != nil {
-		return nil, err
-	}
-	l1 := firstIdx(rs, pr.Body, "p.PodLister.Pods(namespace).Get(podName)")
-	a1 := firstIdx(rs, pr.Body, "p.Client.CoreV1().Pods(namespace).Get(")
-	retFalse := -1
-	for i, s := range pr.Body.List {
-		if r, ok := s.(*ast.ReturnStmt); ok && strings.HasPrefix(rs.Src(r), "return false") && i > a1 {
-			retFalse = i
-		}
-	}
-	nMatch := strings.Count(rs.Src(pr.Body), "runningAndUidMatch(podUid, pod, err)")
-	// no `return false` between the lister answer and the apiserver call
-	early := false
-	for i, s := range pr.Body.List {
-		if i > l1 && i < a1 {
-			ast.Inspect(s, func(n ast.Node) bool {
-				if r, ok := n.(*ast.ReturnStmt); ok && strings.HasPrefix(rs.Src(r), "return false") {
-					early = true
-				}
-				return true
-			})
-		}
-	}
-	fmt.Fprintf(&b, "/-- podRunning: lister first; \"not running\" is answered only after the API server said so too -/\ndef podRunningAsksApiServerSecond : Bool := %s\n",
-		fg.LeanBool(l1 >= 0 && before(l1, a1) && before(a1, retFalse) && nMatch == 2 && !early))
-
-	rm, err := rs.Fn("", "runningAndUidMatch")
-	if err != nil {
-		return nil, err
-	}
-	e1 := guardIdx(rs, rm.Body, []string{"err != nil"}, "return true")
-	u1 := guardIdx(rs, rm.Body, []string{"storedUid != \"\"", "storedUid != string(pod.GetUID())"}, "return false")
-	f1 := firstIdx(rs, rm.Body, "finished(pod)")
-	fmt.Fprintf(&b, "/-- runningAndUidMatch: unknown errors keep the ip; a different stored UID means \"not this pod\"; then finished(pod) -/\ndef runningAndUidMatchChecksUID : Bool := %s\n\n",
-		fg.LeanBool(e1 >= 0 && before(e1, u1) && before(u1, f1) && f1 >= 0))
-
-	// ---- ConfigurePool: a stored object belongs to the first pool whose pod subnet AND ranges contain its address
-	ic, err := fg.ParseFile(repo, "pkg/ipam/floatingip/ipam_crd.go")
-	if err != nil {
-		return nil, err
-	}
-	cp, err := ic.Fn("crdIpam", "ConfigurePool")
-	if err != nil {
-		return nil, err
-	}
-	lookupOK := false
-	ast.Inspect(cp, func(n ast.Node) bool {
-		ifs, ok := n.(*ast.IfStmt)
-		if !ok {
-			return true
-		}
-		c := strings.ReplaceAll(ic.Src(ifs.Cond), " ", "")
-		if c == "fipConf.IPNet().Contains(netIP)&&fipConf.Contains(netIP)" {
-			body := ic.Src(ifs.Body)
-			if strings.Contains(body, "found = true") && strings.Contains(body, "tmpCacheAllocated[ip.Name] = tmpFip") &&
-				strings.Contains(body, "break") {
-				lookupOK = true
-			}
-		}
-		return true
-	})
-	fmt.Fprintf(&b, "/-- ConfigurePool: a listed object is kept for the first pool whose pod subnet AND ip ranges contain its address -/\ndef configurePoolMatchesSubnetAndRanges : Bool := %s\n\n", fg.LeanBool(lookupOK))
-
-	// ---- lockPod at the entry points
 	fl, err := fg.ParseFile(repo, dir+"filter.go")
 	if err != nil {
 		return nil, err
 	}
-	type ep struct {
-		p        *fg.Parsed
-		name     string
-		firstUse []string
-	}
-	locks := []string{}
-	all := true
-	for _, e := range []ep{
-		{fl, "Filter", []string{"p.getSubnet("}},
-		{bd, "Bind", []string{"p.allocateIP("}},
-		{bd, "unbind", []string{"p.ipam.", "cloudProviderUnAssignIP("}},
-		{bd, "Release", []string{"p.ipam."}},
-		{rs, "syncPodIP", []string{"p.syncIP("}},
-	} {
-		fn, err := e.p.Fn("FloatingIPPlugin", e.name)
-		if err != nil {
-			return nil, err
-		}
-		ok := before(hasDeferLockPod(e.p, fn.Body), firstIdx(e.p, fn.Body, e.firstUse...)) && firstIdx(e.p, fn.Body, e.firstUse...) >= 0
-		all = all && ok
-		locks = append(locks, fmt.Sprintf("(%s, %s)", fg.LeanStr(e.name), fg.LeanBool(ok)))
-	}
-	all = all && resyncLock
-	locks = append(locks, fmt.Sprintf("(%s, %s)", fg.LeanStr("resyncAllocatedIPs.closure"), fg.LeanBool(resyncLock)))
-
-	// nothing that concerns the pod's key (IPAM, apiserver, provider, or a helper doing so) runs before the lockPod call
-	touching := []string{"p.ipam.", "p.Client.", "p.getSubnet(", "p.allocateIP(", "p.syncIP(", "p.podRunning(", "p.releaseIP(",
-		"p.reserveIP(", "p.unbindDpPod(", "p.unbindNoneDpPod(", "p.keyOwnedByRunningPod(", "cloudProvider"}
-	noEarly := true
-	bodies := []struct {
-		p *fg.Parsed
-		b *ast.BlockStmt
-	}{}
-	for _, e := range []ep{{fl, "Filter", nil}, {bd, "Bind", nil}, {bd, "unbind", nil}, {bd, "Release", nil}, {rs, "syncPodIP", nil}} {
-		fn, err := e.p.Fn("FloatingIPPlugin", e.name)
-		if err != nil {
-			return nil, err
-		}
-		bodies = append(bodies, struct {
-			p *fg.Parsed
-			b *ast.BlockStmt
-		}{e.p, fn.Body})
-	}
-	if closure != nil {
-		bodies = append(bodies, struct {
-			p *fg.Parsed
-			b *ast.BlockStmt
-		}{rs, closure.Body})
-	}
-	for _, x := range bodies {
-		li := hasDeferLockPod(x.p, x.b)
-		if li < 0 {
-			noEarly = false
-			continue
-		}
-		for i := 0; i < li; i++ {
-			src := x.p.Src(x.b.List[i])
-			for _, t := range touching {
-				if strings.Contains(src, t) {
-					noEarly = false
-				}
-			}
-		}
-	}
-	fmt.Fprintf(&b, "/-- no IPAM / apiserver / provider access (or helper doing one) precedes `defer p.lockPod(..)()` in the six entry points -/\ndef noKeyAccessBeforePodLock : Bool := %s\n", fg.LeanBool(noEarly && closure != nil))
-
-	// every entry point locks the SAME key: lockPod(name, namespace) = "<namespace>_<name>", called with (…Name, …Namespace)
 	fp, err := fg.ParseFile(repo, dir+"floatingip_plugin.go")
 	if err != nil {
 		return nil, err
 	}
-	lp, err := fp.Fn("FloatingIPPlugin", "lockPod")
+	pf, err := fg.ParseFile(repo, dir+"preempt.go")
 	if err != nil {
 		return nil, err
 	}
-	paramsOK := len(lp.Type.Params.List) == 1 && len(lp.Type.Params.List[0].Names) == 2 &&
-		lp.Type.Params.List[0].Names[0].Name == "name" && lp.Type.Params.List[0].Names[1].Name == "namespace"
-	uniform := paramsOK &&
-		strings.Contains(fp.Src(lp.Body), `key := fmt.Sprintf("%s_%s", namespace, name)`) &&
-		strings.Contains(fp.Src(lp.Body), "p.podLockPool.LockKey(key)")
-	calls, lockKeyCalls := 0, 0
-	for _, f := range []*fg.Parsed{fl, bd, rs, fp, ev} {
-		ast.Inspect(f.File, func(n ast.Node) bool {
-			c, ok := n.(*ast.CallExpr)
-			if !ok {
-				return true
-			}
-			switch f.Src(c.Fun) {
-			case "p.lockPod":
-				calls++
-				if len(c.Args) != 2 {
-					uniform = false
-					break
-				}
-				a0, a1 := f.Src(c.Args[0]), f.Src(c.Args[1])
-				if !(strings.HasSuffix(a0, ".Name") || strings.HasSuffix(a0, ".PodName")) || !strings.HasSuffix(a1, ".Namespace") {
-					uniform = false
-				}
-			case "p.podLockPool.LockKey":
-				lockKeyCalls++
-			}
-			return true
-		})
-	}
-	fmt.Fprintf(&b, "/-- lockPod(name, namespace) locks \"<namespace>_<name>\"; all its call sites (Filter, Bind, unbind, Release, syncPodIP, resync closure) pass (…Name, …Namespace) in that order and nothing else locks the pod pool -/\ndef podLockKeyUniform : Bool := %s\n\n", fg.LeanBool(uniform && calls >= 6 && lockKeyCalls == 1))
-	fmt.Fprintf(&b, "/-- `defer p.lockPod(..)()` dominates the first IPAM use of each entry point -/\ndef underPodLock : List (String × Bool) := [%s]\ndef allUnderPodLock : Bool := %s\n\n",
-		strings.Join(locks, ", "), fg.LeanBool(all))
-
-	// ---- resync examines pod keys only: fetchChecklist skips a record whose key has no pod name (an administrator's
-	// reservation, a pool-level or deployment-level key) before it appends it to the checklist
-	skipsNonPod := false
-	if fc, err := rs.Fn("FloatingIPPlugin", "fetchChecklist"); err == nil {
-		skipsNonPod = skipsNonPodKeys(rs, fc.Body)
-	}
-	fmt.Fprintf(&b, "/-- fetchChecklist: a record whose key has no pod name never enters the resync checklist -/\ndef resyncSkipsKeysWithoutPodName : Bool := %s\n", fg.LeanBool(skipsNonPod))
-	// ---- Preempt: calls getSubnet, never lockPod
-	preemptUnlocked := false
-	if pf, err := fg.ParseFile(repo, dir+"preempt.go"); err == nil {
-		if pre, err := pf.Fn("FloatingIPPlugin", "Preempt"); err == nil {
-			src := pf.Src(pre.Body)
-			preemptUnlocked = strings.Contains(src, "p.getSubnet(args.Pod)") && !strings.Contains(src, "lockPod(")
-		}
-	}
-	fmt.Fprintf(&b, "/-- Preempt calls getSubnet (which may allocate) and does not take the pod lock -/\ndef preemptCallsGetSubnetUnlocked : Bool := %s\n", fg.LeanBool(preemptUnlocked))
-	// ---- Bind takes the pod (and its UID) from the lister
-	bind, err := bd.Fn("FloatingIPPlugin", "Bind")
+	ic, err := fg.ParseFile(repo, "pkg/ipam/floatingip/ipam_crd.go")
 	if err != nil {
 		return nil, err
 	}
-	li := firstIdx(bd, bind.Body, "p.PodLister.Pods(args.PodNamespace).Get(args.PodName)")
-	fromLister := li >= 0 && before(li, hasDeferLockPod(bd, bind.Body)) && !strings.Contains(bd.Src(bind.Body), "Client.CoreV1().Pods(args.PodNamespace).Get(")
-	fmt.Fprintf(&b, "/-- Bind reads the pod object from the pod lister (the model's `vPods`) -/\ndef bindReadsPodFromLister : Bool := %s\n", fg.LeanBool(fromLister))
-	lg := guardIdx(bd, bind.Body, []string{"args.PodUID != \"\"", "pod.UID != args.PodUID"}, "return fmt.Errorf")
-	firstUse := firstIdx(bd, bind.Body, "p.lockPod(", "p.allocateIP(", "p.ipam.")
-	fmt.Fprintf(&b, "/-- Bind refuses (before the pod lock and any IPAM call) when the lister's pod has another non-empty UID than args.PodUID -/\ndef bindChecksListerUID : Bool := %s\n", fg.LeanBool(before(li, lg) && before(lg, firstUse) && firstUse >= 0))
-	fmt.Fprintf(&b, "/-- Bind: every send of a release event (`p.unreleased <-`) sits under `if apierrors.IsNotFound(err1)`, err1 being the error of the pods/binding call -/\ndef bindEnqueuesReleaseOnlyOnNotFound : Bool := %s\n", fg.LeanBool(enqueuesOnlyOnNotFound(bd, bind.Body)))
-	// ---- finished(pod): exactly the two phase comparisons
-	phaseOnly := false
-	if pf, err := fg.ParseFile(repo, dir+"floatingip_plugin.go"); err == nil {
-		if fn, err := pf.Fn("", "finished"); err == nil {
-			phaseOnly = finishedIsPhaseOnly(pf, fn.Body)
+	trace := func(p *fg.Parsed, recv, name string) (*Trace, error) {
+		fd, err := p.Fn(recv, name)
+		if err != nil {
+			return nil, err
 		}
+		return NormaliseFunc(fd, []*fg.Parsed{p}), nil
 	}
-	fmt.Fprintf(&b, "/-- finished(pod) is exactly `return pod.Status.Phase == corev1.PodFailed || pod.Status.Phase == corev1.PodSucceeded` -/\ndef finishedChecksPhaseOnly : Bool := %s\n", fg.LeanBool(phaseOnly))
+	f, err := facts(trace, bd, rs, fl, fp, pf, ic, ev)
+	if err != nil {
+		return nil, err
+	}
+	b.WriteString(f)
 	b.WriteString("\nend Galaxy.Generated.Plugin\n")
 	return map[string]string{"Plugin.lean": b.String()}, nil
 }
